@@ -67,6 +67,9 @@ def strategy(date, ctx):
             "alter": draw(st.sampled_from([18, 22, 23, 30, 45, 60, 64])),
             "step": draw(st.sampled_from([2.5, 5.0, 7.5] if ctx["tier"] == "quick" else [0.5, 1.0, 2.5])),
             "hours": draw(st.sampled_from([10.0, 20.0, 40.0])),
+            # a private / occupational pension next to the wage (contributions on it do not depend on
+            # the wage, so every shape condition in the wage is unaffected)
+            "pension": draw(st.sampled_from([0.0, 0.0, 0.0, 650.0, 3600.0, 9000.0])),
         }
         return cfg
 
@@ -107,6 +110,7 @@ def build(date, cfg):
     cols["ges_pflegev_hat_kinder"][:] = cfg["n_kids"] > 0
     cols["bruttolohn_m"] = wages
     cols["bruttolohn_vorj_m"] = wages.copy()
+    cols["priv_rente_m"][:] = float(cfg.get("pension", 0.0))
     cols["arbeitsstunden_w"][:] = cfg["hours"]
     cols["mietstufe"][:] = 3
     cols["steuerklasse"][:] = 1
@@ -153,9 +157,12 @@ def check(df, date, bounds=None, stats=None):
         if (d < -1e-9).any():
             i = int(np.argmin(d))
             fails.append(core.Failure(f"decreasing:{x}", f"{date}: {node} falls from {c[i]} at wage {w[i]} to {c[i+1]} at wage {w[i+1]}"))
-        if (c[gb | marginal] != 0).any():
-            i = int(np.flatnonzero((gb | marginal) & (c != 0))[0])
-            fails.append(core.Failure(f"marginal-not-zero:{x}", f"{date}: {node} = {c[i]} at wage {w[i]} although the wage does not exceed the marginal-employment limit {bounds['mini']}"))
+        # with other contributory income (a pension) the contribution at wage 0 is what is due on that
+        # income; "zero for marginal employment" then means: nothing is added to it
+        c0 = float(c[0]) if (w[0] == 0 and float(df["priv_rente_m"].iloc[0]) > 0) else 0.0
+        if (np.abs(c[gb | marginal] - c0) > 1e-9).any():
+            i = int(np.flatnonzero((gb | marginal) & (np.abs(c - c0) > 1e-9))[0])
+            fails.append(core.Failure(f"marginal-not-zero:{x}", f"{date}: {node} = {c[i]} at wage {w[i]} (at wage 0: {c0}) although the wage does not exceed the marginal-employment limit {bounds['mini']}"))
         above = w >= ceil[x] - 1e-9
         if above.sum() >= 2 and np.ptp(c[above]) > 1e-9:
             fails.append(core.Failure(f"not-constant-above-ceiling:{x}", f"{date}: {node} varies by {np.ptp(c[above])} above the ceiling {ceil[x][0]}"))
@@ -172,10 +179,10 @@ def check(df, date, bounds=None, stats=None):
             if bad.any():
                 i = int(np.flatnonzero(bad)[0])
                 fails.append(core.Failure(f"shares-dont-sum:{x}", f"{date}: in the transition zone at wage {w[i]}: employee {an[i]} + employer {ag[i]} != total {tot[i]}"))
-            incons = gz & (np.abs(c - an) > 1e-9)
+            incons = gz & (np.abs(c - c0 - an) > 1e-9)
             if incons.any():
                 i = int(np.flatnonzero(incons)[0])
-                fails.append(core.Failure(f"zone-contribution-not-used:{x}", f"{date}: at wage {w[i]} (transition zone) {node} = {c[i]} but the transition-zone employee share is {an[i]}"))
+                fails.append(core.Failure(f"zone-contribution-not-used:{x}", f"{date}: at wage {w[i]} (transition zone) {node} = {c[i]} (of which {c0} on other income) but the transition-zone employee share is {an[i]}"))
     if stats is not None:
         stats["regimes"] = (bool(gb.any()), bool(gz.any()), bool((~gb & ~gz).any()))
         stats["both_sides"] = all(((w < ceil[x]).any() and (w > ceil[x]).any()) for x in CONTRIB)
@@ -201,7 +208,7 @@ class _Cfg(dict):
     archetypes = ()
 
     def classes(self):
-        return {f"ost={self['ost']}", f"n_kids={self['n_kids']}", f"alter={self['alter']}"}
+        return {f"ost={self['ost']}", f"n_kids={self['n_kids']}", f"alter={self['alter']}", f"pension={self.get('pension', 0.0)}"}
 
 
 _s = strategy
